@@ -66,6 +66,10 @@ CLAIMS = {
    technique="phase typestate over the call graph (pointer fields allocated in a later initialisation phase must not be dereferenced from an earlier one), call-order analysis of system_init, abstract evaluation of comparators / sort selection / list construction / index numbering, exhaustive small-domain evaluation of the merge predicates, error propagation",
    text="Decides the named clauses: no pointer field of loom/proc/thread/cpu allocated in init_end_system is dereferenced by code reachable from create_system (the crash of the metadata loader); system_init runs its six phases in order; by_pid/by_rank/by_tid/by_phyid/cmp_loom_rank order by their key and the sorts select them as documented; set_sort_criteria sorts by rank only when every loom has ranks; the virtual CPU follows the physical CPUs and global indices follow list order; load_appid, load_rank (16 cases) and load_cpus (6 cases) accept repeated attributes only when equal and reject contradictions, duplicate TIDs are refused, and these errors reach the exit status. Not decided: independence from the distribution of attributes over threads in general (a metamorphic property over inputs) and the uthash/utlist sort implementations.",
    design_ref="§4 C15"),
+ "C16": dict(
+   technique="order-abstraction of the qsort comparator (clock and position orderings), relational interval analysis of the pwrite write-back loop, typestate evaluation of the sort-region state machine on all event-class sequences up to length 4 (path-local scripts), error propagation to ovnisort's exit status",
+   text="Claims named clauses only. cmp_ev, evaluated on the orderings of (clock, stream position), must be a total order (by clock, ties by position, 0 only for the same element) because ISO C qsort is not stable; write_stream must write (src,size) at file offset dst-base, advancing all three by pwrite's return until nothing remains and dying on error, fdatasync/close failures must abort; stream_winsort is evaluated on all 121 sequences of {region start, region end, other} up to length 4 plus longer ones: a plan is executed exactly for each non-empty region from its first inner event to the closing marker, every event enters the ring once in order, a failing plan fails the sort; a missing destination makes execute_sort_plan fail and that reaches exit status 1. NOT decided (the core of C16): that the result is a sorted permutation, the untouched prefix and idempotence - these are properties of array contents.",
+   design_ref="§4 C16"),
  "C17": dict(
    technique="writer/reader literal agreement with constant-folded key construction, abstract evaluation of the mark emitters and of mark_event / parse_mark / add_label / create_mark_type over their finite case spaces, constant checks of tracking modes and PRV type offset",
    text="The keys the runtime writes for a mark type and label (snprintf evaluated on constant formats) and the keys/tokens the emulator reads must agree (ovni.mark.<t>.title / .chan_type in {single, stack} / .labels.<v>), with the right token per flag and the right channel type per token; ovni_mark_push/pop/set must emit OM[ OM] OM= with (i64 value, i32 type), the catalogue must declare that shape, and mark_event must require 12 bytes, read offsets 0 and 8 and map [ ] = to push/pop/set on the type's channel; zero values, out-of-range / undefined / redefined types and title, channel-type and label conflicts must be refused on the side that sees them; types show under PRV 100 + type, threads tracked while ACTIVE, CPUs for the RUNNING thread. Not decided: merging of definitions across threads inside the hash tables (data).",
